@@ -107,6 +107,27 @@ func (c *checkCtx) confirm(v Violation) (bool, string) {
 	if build.Build == "race" && w.ExitCode == 66 {
 		return true, tail(w.Stderr, 6000)
 	}
+	if v.Engine == "abortsim" {
+		// A tree on which the step count of one input varies from parse to parse
+		// (itself a violation: there is no N) fails the same oracle again, but not
+		// necessarily at the same budget or through the same API: up to four fresh
+		// processes, and the same oracle failing through either API counts.
+		for try := 0; try < 4; try++ {
+			for _, d := range w.Docs {
+				if docType(d) == "replay" {
+					var rep, repKind bool
+					json.Unmarshal(d["reproduced"], &rep)
+					json.Unmarshal(d["reproduced_same_kind"], &repKind)
+					if rep || repKind {
+						return true, string(mustMarshal(d))
+					}
+				}
+			}
+			if try < 3 {
+				w = runWorker(bin, []string{replayCmd[v.Engine], "-file", tmp}, env, 10*time.Minute)
+			}
+		}
+	}
 	for _, d := range w.Docs {
 		if docType(d) == "replay" {
 			var rep bool
